@@ -310,6 +310,9 @@ func (rm *ResponseManager) taskDataForKey(requestID graphsync.RequestID) queryex
 			maxLinks = response.maxLinks
 		}
 		if maxLinks > 0 {
+			if maxLinks > math.MaxInt64 {
+				maxLinks = math.MaxInt64
+			}
 			budget = &traversal.Budget{
 				NodeBudget: math.MaxInt64,
 				LinkBudget: int64(maxLinks),
